@@ -504,6 +504,22 @@ def check_multiplex(st, driver, case, shards, parts):
             {'case': hcase, 'receiver': name, 'states': repr(states),
              'got': got, 'expected': rows}, replay={'case': case})
 
+    # the receiver is a *restored* multiplex (over restored shards): resume,
+    # take one more step, resume again from the state of the resumed iterator
+    def resumed_twice():
+      resumed = used.from_state(states)
+      more = [next(resumed) for _ in range(min(1, len(rows) - h))]  # pylint: disable=cell-var-from-loop
+      return head + more + list(resumed.from_state(resumed.state))  # pylint: disable=cell-var-from-loop
+
+    got = _try(resumed_twice)
+    if got != ('ok', rows):
+      st.violation(
+          f'C09:MultiplexIterator({driver}-shards).from_state(restored):'
+          'resumed-rows-differ',
+          {'case': hcase, 'receiver': 'the multiplex restored from `states`, '
+           'after one more step', 'states': repr(states), 'got': got,
+           'expected': rows}, replay={'case': case})
+
 
 def check_multiplex_sequence(st, split, depth):
   """Every reachable object of depth < `depth`, sharded k ways, multiplexed."""
@@ -626,14 +642,16 @@ def _iterable_unit(args):
                   {'case': case + (i,), 'state': repr(state), 'got': rec,
                    'expected': part}, replay={'case': case})
         # receivers that are themselves shards: every shard j (as a source,
-        # as its iterator after one step, restored from its state) rebuilds
-        # every shard i
+        # as its iterator after one step, restored from its state, restored
+        # from the state of that iterator) rebuilds every shard i
         for j, (recv_shard, recv_part) in enumerate(zip(shards, parts)):
           forms = (
               ('ShardedIterable', lambda: recv_shard),
               ('DataIterator', lambda: _advanced(recv_shard, recv_part)),
               ('restored-ShardedIterable',
                lambda: root.from_state(recv_shard.state)),
+              ('ShardedIterable-restored-from-its-iterator-state',
+               lambda: root.from_state(_advanced(recv_shard, recv_part).state)),
           )
           for form, derive in forms:
             recv = _try(derive)
@@ -957,10 +975,11 @@ def run(ctx):
       'object of O_1 == those of the original; MultiplexIterator over the k '
       'shards of every object of O_1 (and of a ShardedIterable) x stopped '
       'after every h in 0..len x from_state invoked on {itself, an unused '
-      'multiplex, a multiplex over the rotated sibling shards}; '
+      'multiplex, a multiplex over the rotated sibling shards, the restored '
+      'multiplex after one more step}; '
       f'ShardedIterable: n<={n_single} x k in 1..n+2 x 3 containers, every '
-      'shard j {source, iterator after one step, restored} x state of every '
-      'shard i; '
+      'shard j {source, iterator after one step, restored, restored from its '
+      'iterator state} x state of every shard i; '
       f'MergedSequences: every split of n<={n_merged} rows into <={p_merged} '
       'possibly empty sub-sequences (and zero sub-sequences) x {list, tuple, '
       'index-only} x every index in [-n-1,n] x every slice bound pair in '
